@@ -314,7 +314,10 @@ fn programs(thorough: bool) -> Vec<(Program, usize)> {
     let mut v: Vec<(Program, usize)> = Vec::new();
     let seqs1: Vec<Vec<SpawnKind>> = vec![vec![Regular], vec![Urgent], vec![Forget]];
     let seqs2: Vec<Vec<SpawnKind>> = vec![vec![Regular, Regular], vec![Regular, Urgent], vec![Urgent, Regular], vec![Forget, Regular], vec![Regular, Forget]];
-    let deep = if thorough { 3 } else { 2 };
+    // Process and thread creation is serialised system-wide on this VM (~300 executions/s in
+    // total, whatever the number of cores), so the tiers are budgeted in executions: quick
+    // ~10k, thorough ~400k.
+    let deep = if thorough { 3 } else { 1 };
     let wide = if thorough { 2 } else { 1 };
     for (concurrent_drop, keep_scheduler) in [(false, false), (true, false), (true, true)] {
         // one spawner, one processor, one worker: the core programs get the deepest bound
